@@ -398,6 +398,12 @@ func (e *C11) Run(ctx *core.Ctx, idx int) {
 	if os.Getenv("VH_DEBUG") != "" && len(hit) > 0 && strings.Contains(hit[0], "update ExtendedDaemonSet @extendeddaemonset.(*Reconciler).updateInstanceWithCurrentRS") && !strings.Contains(hit[0], "status-update") {
 		fmt.Fprintf(os.Stderr, "DEBUG %s %v\nFINAL:\n%s\nBASE:\n%s\nTRACE:\n%s\n", cs.script, hit, final, base.final, strings.Join(w.Trace, "\n"))
 	}
+	if len(w.ActsAfterFailedRead) > 0 {
+		// the per-invocation safety monitors judge a reconcile against what it read; a reconcile that
+		// creates or deletes pods / replica sets although one of the reads it bases that on was refused
+		// acts on a state it did not read
+		ctx.Violation("C11", "C11.acted-after-failed-read", map[string]string{"scenario": cs.script, "fault": cs.f1.String()}, map[string]any{"case": desc, "acts": w.ActsAfterFailedRead})
+	}
 	ctx.Count("C11.store-invariant-runs-judged")
 	if w.MaxLivePerNode > base.maxLive {
 		// store-level safety at every intermediate point: a node never holds more live daemon pods
